@@ -5,7 +5,7 @@ from .. import scope_check
 
 PID = 'C18'
 # repairs of C18 defects present in /repo (fix: commits); the specification's repaired clauses are switched on for them
-FIXES = []
+FIXES = ['F18']      # repaired in /repo (fix: lifecycle hooks run inside the process scope)
 
 
 def fixes():
